@@ -17,6 +17,8 @@ import (
 	"debug/elf"
 	"encoding/binary"
 	"fmt"
+	"net/http"
+	"net/http/httptest"
 	"os"
 	"path/filepath"
 	"strings"
@@ -25,6 +27,8 @@ import (
 
 	"github.com/google/pprof/internal/binutils"
 	"github.com/google/pprof/internal/driver"
+	"github.com/google/pprof/internal/transport"
+	"github.com/google/pprof/internal/zzverif/vdrv"
 	"github.com/google/pprof/internal/zzverif/vlib"
 	"github.com/google/pprof/profile"
 )
@@ -46,11 +50,21 @@ func bigProfile(n int) *profile.Profile {
 	return c.Profile(vlib.AProf{ST: []vlib.AVT{{T: "s1", U: "count"}, {T: "s2", U: "bytes"}}, Samples: ss})
 }
 
+// slowWriter is a destination that takes its time (a pipe, a socket): a Write call stays inside its final flush for a while
+type slowWriter struct{ b *bytes.Buffer }
+
+func (w slowWriter) Write(x []byte) (int, error) {
+	time.Sleep(300 * time.Microsecond)
+	return w.b.Write(x)
+}
+
 func encodePart(rounds int) {
 	p := bigProfile(400)
-	var seqU, seqC bytes.Buffer
+	p2 := bigProfile(37) // another profile written at the same time: whatever Write calls share must not leak between them
+	var seqU, seqC, seqC2 bytes.Buffer
 	p.WriteUncompressed(&seqU)
 	p.Write(&seqC)
+	p2.Write(&seqC2)
 	r := vlib.NewRand(run.Seed + 20)
 	// the gate sleeps (no synchronisation!) between preEncode and marshal for some callers
 	var gmu sync.Mutex
@@ -69,7 +83,7 @@ func encodePart(rounds int) {
 		k := 2 + r.Intn(6)
 		ops := make([]int, k)
 		for i := range ops {
-			ops[i] = r.Intn(3)
+			ops[i] = r.Intn(5)
 		}
 		var wg sync.WaitGroup
 		outs := make([][]byte, k)
@@ -90,6 +104,10 @@ func encodePart(rounds int) {
 					p.Write(&b)
 				case 2:
 					p.Copy().WriteUncompressed(&b)
+				case 3:
+					p.Write(slowWriter{&b})
+				case 4:
+					p2.Write(slowWriter{&b})
 				}
 				outs[i] = b.Bytes()
 			}(i)
@@ -97,8 +115,11 @@ func encodePart(rounds int) {
 		wg.Wait()
 		for i, o := range outs {
 			want := seqU.Bytes()
-			if ops[i] == 1 {
+			if ops[i] == 1 || ops[i] == 3 {
 				want = seqC.Bytes()
+			}
+			if ops[i] == 4 {
+				want = seqC2.Bytes()
 			}
 			if !bytes.Equal(o, want) {
 				run.Violate("encode", "torn-encode", fmt.Sprintf("round %d: operation %d of %v produced %d bytes that differ from the sequential encoding (%d bytes)", round, i, ops, len(o), len(want)), ops, nil)
@@ -377,6 +398,61 @@ func lazyInitPart(rounds int) {
 	}
 }
 
+// sources fetched in parallel through the shared HTTP transport: one that asks for no certificate check
+// (https+insecure://) next to one that must be checked (https:// to a server with a certificate nobody signed).
+// What each fetch gets is what it gets when fetched alone: the first is fetched, the second refused.
+func transportPart(rounds int) {
+	var body bytes.Buffer
+	bigProfile(5).Write(&body)
+	h := http.HandlerFunc(func(w http.ResponseWriter, r *http.Request) { w.Write(body.Bytes()) })
+	s1, s2 := httptest.NewTLSServer(h), httptest.NewTLSServer(h)
+	defer s1.Close()
+	defer s2.Close()
+	insecure := "https+insecure://" + strings.TrimPrefix(s1.URL, "https://") + "/pprof/heap"
+	secure := s2.URL + "/pprof/heap"
+	one := func(srcs []string, delay map[string]time.Duration) *vdrv.Result {
+		return vdrv.Run(vdrv.Opts{Args: append([]string{"-proto", "-symbolize=none", "-output=out"}, srcs...), Transport: transport.New(nil),
+			Fetch: func(src string) (*profile.Profile, error) {
+				time.Sleep(delay[src])
+				return nil, nil // the driver's own URL fetch, through the transport
+			}})
+	}
+	count := func(r *vdrv.Result) int {
+		p, err := profile.ParseData(r.Files["out"])
+		if err != nil {
+			return -1
+		}
+		n := 0
+		for _, s := range p.Sample {
+			n += int(s.Value[0])
+		}
+		return n
+	}
+	alone := one([]string{insecure}, nil)
+	refused := one([]string{secure}, nil)
+	if alone.Err != nil || refused.Err == nil {
+		run.Infra(fmt.Sprintf("transport part: alone the insecure source gives %v and the unverifiable one %v", alone.Err, refused.Err))
+		return
+	}
+	want := count(alone)
+	for r := 0; r < rounds; r++ {
+		srcs := []string{insecure, secure}
+		if r%2 == 1 {
+			srcs = []string{secure, insecure}
+		}
+		res := one(srcs, map[string]time.Duration{secure: time.Duration(r%3) * 40 * time.Millisecond})
+		run.Count(fmt.Sprintf("transport|%d", r%6))
+		if res.Err != nil || res.Panic != nil {
+			run.Violate("fetch", "transport-mixed-error", fmt.Sprint(res.Err, res.Panic), srcs, nil)
+			return
+		}
+		if got := count(res); got != want {
+			run.Violate("fetch", "unverified-source-accepted", fmt.Sprintf("sources %v: the merged profile counts %d, the source that may be fetched counts %d alone: the source whose certificate cannot be verified was fetched as well (messages: %v)", srcs, got, want, res.UIErr), srcs, nil)
+			return
+		}
+	}
+}
+
 func main() {
 	run = vlib.NewRun("C20")
 	n := run.N
@@ -388,6 +464,7 @@ func main() {
 	a2lPart(n / 2)
 	tempRegistryPart(n/10 + 2)
 	lazyInitPart(n/10 + 4)
+	transportPart(n/10 + 6)
 	run.Sample(map[string]interface{}{"encode_rounds": n, "binutils_rounds": n / 4})
 	run.Finish("concurrent mixes: rounds of 2..7 goroutines each doing Write / WriteUncompressed / Copy on one shared 400-sample profile with the verif gate sleeping between preEncode and marshal, every output compared with the sequential bytes; 2 goroutines symbolizing through an ObjFile opened earlier and 3 opening fresh ObjFiles (first SourceLine, Symbols) while a sixth toggles fast symbolization and re-selects the tools, every answer compared with the sequential answers under the two configurations; 6 goroutines x 40 queries through one ObjFile backed by a scripted addr2line pipe, every answer must be the caller's own; all under the race detector; non-trivial = distinct operation mix")
 }
